@@ -74,4 +74,32 @@ mod verif_oracle_poplar1 {
             }
         }
     }
+
+    // Executable form of the Poplar1AggregationParam::decode header contract (unit pop_aggparam_header): every header with the level and
+    // the prefix count at boundary values, over inputs with no or few bytes after the header, must be refused with an error - never a
+    // panic (overflow) and never by way of an allocation sized by the wire count (observed here as the decoder getting past the check:
+    // Err(LengthPrefixTooBig) is the only acceptable outcome when count * ceil((level+1)/8) exceeds what is left).
+    #[test]
+    fn oracle_agg_param_header() {
+        for level in [0u16, 6, 7, 8, 15, 16, 31, 255, 0x7fff, 0xfffe, 0xffff] {
+            for count in [1u32, 2, 3, 0xff, 0x100, 0xffff, 0x1_0000, 0x4000_0000, 0x8000_0000, 0xffff_fffe, 0xffff_ffff] {
+                for tail in [0usize, 1, 2] {
+                    let mut bytes = Vec::new();
+                    bytes.extend_from_slice(&level.to_be_bytes());
+                    bytes.extend_from_slice(&count.to_be_bytes());
+                    bytes.extend(std::iter::repeat(0u8).take(tail));
+                    let pbl = (level as usize + 1 + 7) / 8;
+                    let too_big = (count as u128) * (pbl as u128) > tail as u128;
+                    let b2 = bytes.clone();
+                    let r = std::panic::catch_unwind(move || Poplar1AggregationParam::get_decoded(&b2));
+                    match r {
+                        Err(_) => { println!("COUNTEREXAMPLE Poplar1AggregationParam::decode panics: level={} num_prefixes={} with {} byte(s) after the header", level, count, tail); return; }
+                        Ok(Ok(_)) => if too_big { println!("COUNTEREXAMPLE Poplar1AggregationParam::decode accepts level={} num_prefixes={} with only {} byte(s) after the header", level, count, tail); return; },
+                        Ok(Err(e)) => if too_big && !matches!(e, CodecError::LengthPrefixTooBig(_)) {
+                            println!("COUNTEREXAMPLE Poplar1AggregationParam::decode: level={} num_prefixes={} with {} byte(s) after the header is not refused by the length check (LengthPrefixTooBig) but later ({}): the count was not validated against the remaining input before allocating", level, count, tail, e); return; },
+                    }
+                }
+            }
+        }
+    }
 }
